@@ -75,9 +75,9 @@ pub fn float(r: &mut Rng, level: u8, lo: f64, hi: f64) -> String {
     }
 }
 
-fn kv(r: &mut Rng, level: u8, k: &str, v: &str) -> String {
+fn kv(style: u64, level: u8, k: &str, v: &str) -> String {
     if level >= 1 {
-        match r.below(8) {
+        match style % 8 {
             0 => format!("{k}:{v}"),
             1 => format!("{k} : {v}"),
             2 => format!("{k}: {v} // comment"),
@@ -91,32 +91,32 @@ fn kv(r: &mut Rng, level: u8, k: &str, v: &str) -> String {
 
 pub fn general(r: &mut Rng, o: &Opts, mode: u8, out: &mut Vec<String>) {
     let l = o.level;
-    out.push(kv(r, l, "AudioFilename", &format!("{}.mp3", text(r, l.min(1)).replace(' ', "_"))));
-    out.push(kv(r, l, "AudioLeadIn", &int(r, l, 0, 3000)));
-    out.push(kv(r, l, "PreviewTime", &int(r, l, -1, 200000)));
-    out.push(kv(r, l, "Countdown", &int(r, l, 0, 3)));
-    out.push(kv(r, l, "SampleSet", *r.pick(&["Normal", "Soft", "Drum", "None", "1", "2"])));
+    out.push(kv(r.next(), l, "AudioFilename", &format!("{}.mp3", text(r, l.min(1)).replace(' ', "_"))));
+    out.push(kv(r.next(), l, "AudioLeadIn", &int(r, l, 0, 3000)));
+    out.push(kv(r.next(), l, "PreviewTime", &int(r, l, -1, 200000)));
+    out.push(kv(r.next(), l, "Countdown", &int(r, l, 0, 3)));
+    out.push(kv(r.next(), l, "SampleSet", *r.pick(&["Normal", "Soft", "Drum", "None", "1", "2"])));
     if r.chance(1, 2) {
-        out.push(kv(r, l, "SampleVolume", &int(r, l, 0, 100)));
+        out.push(kv(r.next(), l, "SampleVolume", &int(r, l, 0, 100)));
     }
-    out.push(kv(r, l, "StackLeniency", &float(r, l, 0.0, 1.0)));
-    out.push(kv(r, l, "Mode", &mode.to_string()));
-    out.push(kv(r, l, "LetterboxInBreaks", &int(r, l, 0, 1)));
+    out.push(kv(r.next(), l, "StackLeniency", &float(r, l, 0.0, 1.0)));
+    out.push(kv(r.next(), l, "Mode", &mode.to_string()));
+    out.push(kv(r.next(), l, "LetterboxInBreaks", &int(r, l, 0, 1)));
     if r.chance(1, 3) {
-        out.push(kv(r, l, "EpilepsyWarning", &int(r, l, 0, 1)));
-    }
-    if r.chance(1, 3) {
-        out.push(kv(r, l, "CountdownOffset", &int(r, l, -2, 5)));
+        out.push(kv(r.next(), l, "EpilepsyWarning", &int(r, l, 0, 1)));
     }
     if r.chance(1, 3) {
-        out.push(kv(r, l, "SpecialStyle", &int(r, l, 0, 1)));
+        out.push(kv(r.next(), l, "CountdownOffset", &int(r, l, -2, 5)));
     }
-    out.push(kv(r, l, "WidescreenStoryboard", &int(r, l, 0, 1)));
     if r.chance(1, 3) {
-        out.push(kv(r, l, "SamplesMatchPlaybackRate", &int(r, l, 0, 1)));
+        out.push(kv(r.next(), l, "SpecialStyle", &int(r, l, 0, 1)));
+    }
+    out.push(kv(r.next(), l, "WidescreenStoryboard", &int(r, l, 0, 1)));
+    if r.chance(1, 3) {
+        out.push(kv(r.next(), l, "SamplesMatchPlaybackRate", &int(r, l, 0, 1)));
     }
     if l >= 2 && r.chance(1, 3) {
-        out.push(kv(r, l, "UnknownKey", "1"));
+        out.push(kv(r.next(), l, "UnknownKey", "1"));
         out.push("no colon here".to_string());
     }
 }
@@ -126,12 +126,12 @@ pub fn editor(r: &mut Rng, o: &Opts, out: &mut Vec<String>) {
     if r.chance(2, 3) {
         let n = r.range(0, 5);
         let b: Vec<String> = (0..n).map(|_| int(r, l, 0, 300000)).collect();
-        out.push(kv(r, l, "Bookmarks", &b.join(",")));
+        out.push(kv(r.next(), l, "Bookmarks", &b.join(",")));
     }
-    out.push(kv(r, l, "DistanceSpacing", &float(r, l, 0.1, 3.0)));
-    out.push(kv(r, l, "BeatDivisor", &int(r, l, 1, 16)));
-    out.push(kv(r, l, "GridSize", &int(r, l, 1, 32)));
-    out.push(kv(r, l, "TimelineZoom", &float(r, l, 0.1, 5.0)));
+    out.push(kv(r.next(), l, "DistanceSpacing", &float(r, l, 0.1, 3.0)));
+    out.push(kv(r.next(), l, "BeatDivisor", &int(r, l, 1, 16)));
+    out.push(kv(r.next(), l, "GridSize", &int(r, l, 1, 32)));
+    out.push(kv(r.next(), l, "TimelineZoom", &float(r, l, 0.1, 5.0)));
 }
 
 pub fn metadata(r: &mut Rng, o: &Opts, out: &mut Vec<String>) {
@@ -162,7 +162,7 @@ pub fn difficulty(r: &mut Rng, o: &Opts, out: &mut Vec<String>) {
             "SliderTickRate" => float(r, l, 0.3, 9.0),
             _ => float(r, l, 0.0, 10.0),
         };
-        out.push(kv(r, l, k, &v));
+        out.push(kv(r.next(), l, k, &v));
     }
 }
 
@@ -246,13 +246,13 @@ pub fn colours(r: &mut Rng, o: &Opts, out: &mut Vec<String>) {
     let n = r.range(0, 4);
     for i in 1..=n {
         let c = format!("{},{},{}", int(r, l, 0, 255), int(r, l, 0, 255), int(r, l, 0, 255));
-        out.push(kv(r, l, &format!("Combo{i}"), &c));
+        out.push(kv(r.next(), l, &format!("Combo{i}"), &c));
     }
     if r.chance(1, 3) {
-        out.push(kv(r, l, "SliderBorder", "255,255,255"));
+        out.push(kv(r.next(), l, "SliderBorder", "255,255,255"));
     }
     if r.chance(1, 4) {
-        out.push(kv(r, l, "SliderTrackOverride", "1,2,3,4"));
+        out.push(kv(r.next(), l, "SliderTrackOverride", "1,2,3,4"));
     }
     if l >= 2 && r.chance(1, 3) {
         out.push("Combo9: 256,0,0".into());
